@@ -1385,17 +1385,6 @@ def _run_case(ctx, model, real, fam, tree, params, forms=None, backends=None, qu
                 numeric = True
                 site = "torch:jacobian:numeric-fallback"
                 ctx.bump("torch-jacobian-fell-back-to-numeric")
-            if proj and form not in ("nabla", "nabla-sym", "nabla-inline"):
-                # every form except dyadic ∇ reaches the function through autograd._invoke_fn, which unwraps
-                # a KGFn to its body and so drops a projection's fixed arguments
-                g0 = assemble(val, form, env, m, n) if status == "ok" else None
-                if g0 is None or judge(g0, orc, backend, numeric or fell_back, nops)[0] == "wrong-value":
-                    ctx.bump("deviation:projection:fixed-arguments-dropped")
-                    ctx.oracle_fail("projection:fixed-arguments-dropped", case, [[float(q) for q in r] for r in orc.jac],
-                                    val if status == "exc" else g0.tolist() if g0 is not None else repr(val)[:200],
-                                    "a projection as the function operand of :> / ∇f / ∂ / .jacobian loses its fixed "
-                                    "arguments (they resolve to same-named globals or stay bare symbols); p∇f is right")
-                    continue
             if form in ("sysjac", "sysjac-named"):
                 # `.jacobian(f;p)` receives f through the interpreter's evaluation of SYSTEM-function
                 # arguments (`call`), which invokes / partially applies function values whose body holds
@@ -1412,6 +1401,17 @@ def _run_case(ctx, model, real, fam, tree, params, forms=None, backends=None, qu
                                         val if status == "exc" else g0.tolist() if g0 is not None else repr(val)[:200],
                                         ".jacobian(f;p) differs from the exact Jacobian although p∂f returns it")
                         continue
+            if proj and form not in ("nabla", "nabla-sym", "nabla-inline"):
+                # every form except dyadic ∇ reaches the function through autograd._invoke_fn, which unwraps
+                # a KGFn to its body and so drops a projection's fixed arguments
+                g0 = assemble(val, form, env, m, n) if status == "ok" else None
+                if g0 is None or judge(g0, orc, backend, numeric or fell_back, nops)[0] == "wrong-value":
+                    ctx.bump("deviation:projection:fixed-arguments-dropped")
+                    ctx.oracle_fail("projection:fixed-arguments-dropped", case, [[float(q) for q in r] for r in orc.jac],
+                                    val if status == "exc" else g0.tolist() if g0 is not None else repr(val)[:200],
+                                    "a projection as the function operand of :> / ∇f / ∂ / .jacobian loses its fixed "
+                                    "arguments (they resolve to same-named globals or stay bare symbols); p∇f is right")
+                    continue
             if status == "exc" and backend == "torch" and unused and not numeric and fclass != "jacobian" \
                     and ("not have been used in the graph" in str(val) or "AutogradChainBroken" in str(val)
                          or not untracked_base_power(tree, form, env)):
@@ -1484,7 +1484,14 @@ def _run_case(ctx, model, real, fam, tree, params, forms=None, backends=None, qu
                 C = np.array([[float(x) for x in r] for r in cd_rows], dtype=float).reshape(m, n)
                 allow = np.array([[4 * orc.err[i] * U64 / float(EPS) + 1e-12 * abs(C[i, j]) + FLOOR_TIE
                                    for j in range(n)] for i in range(m)])
-                if (np.abs(got - C) > allow).any():
+                if (np.abs(got - C) > allow).any() and proj and form not in ("nabla", "nabla-sym", "nabla-inline"):
+                    # right derivative, wrong rounding: the function evaluated is not the projection (its
+                    # fixed slots were read from the same-named globals) but happens to have the same gradient
+                    ctx.bump("deviation:projection:fixed-arguments-dropped")
+                    ctx.oracle_fail("projection:fixed-arguments-dropped", case, C.tolist(), got.tolist(),
+                                    "the central difference is not that of the projection: its fixed arguments were "
+                                    "replaced by same-named globals (the gradient happens to coincide)")
+                elif (np.abs(got - C) > allow).any():
                     i, j = np.argwhere(np.abs(got - C) > allow)[0]
                     ctx.mismatch(f"Klong.C06 central difference vs {form} on numpy", case,
                                  dict(central_difference=C.tolist(), allowance=float(allow[i, j])), got.tolist())
